@@ -107,14 +107,20 @@ class _Factory:
 
 
 def _session(creds=None):
-    """A real BusProtocol with the real BusAuthenticator on a StringTransport (no getsockopt)."""
+    """A real BusProtocol with the real BusAuthenticator on a StringTransport.  Whether or not the protocol
+    reads SO_PEERCRED on this platform (a private module switch decides), it ends up with `creds`: the fake socket
+    answers with them and `_unix_creds` (pinned by the test suite) is preset to them."""
+    import struct
     from twisted.internet.testing import StringTransport
-    import txdbus.protocol
     from txdbus import bus
-    txdbus.protocol._is_linux = False
     p = bus.BusProtocol()
     p.factory = _Factory
     t = StringTransport()
+
+    class Sock:
+        def getsockopt(self, *a):
+            return struct.pack('3i', *(creds if creds is not None else (0, -1, -1)))
+    t.socket = Sock()
     p.makeConnection(t)
     p._unix_creds = creds
     return p, t
@@ -228,44 +234,76 @@ def _probe_commands(B, delim, unknown_reply):
 
 
 def _probe_cookie(C):
-    """Route 2 for the cookie constants: expiry = the first age `_get_cookies` drops; urandom sizes = the
-    arguments `os.urandom` receives while a cookie and a challenge are made."""
+    """Route 2 for the cookie constants, through the mechanism's public `step()` in a scratch HOME (fake passwd
+    entry): expiry = the first age among pre-written entries that the keyring file no longer holds after a
+    challenge was made; urandom sizes = the arguments `os.urandom` receives while cookie and challenge are made."""
     import pwd
     import shutil
+    import sys
     import tempfile
+    import time
+    import types
     tmp = tempfile.mkdtemp(prefix='c06-tr-')
     res = {}
     old_urandom = os.urandom
-    try:
-        inst = C()
-        inst.cookie_file = os.path.join(tmp, 'cookies')
-        base = 1700000000
-        with open(inst.cookie_file, 'wb') as f:
-            for k in range(0, 200):
-                f.write(b'%d %d %s\n' % (k + 1, base - k, b'00'))
-        try:
-            kept = {base - int(x[1]) for x in inst._get_cookies(lambda: float(base))}
-            drops = [k for k in range(0, 200) if k not in kept]
-            if drops and all(k in kept for k in range(0, drops[0])) and not any(k in kept for k in range(drops[0], 200)):
-                res['expiry'] = drops[0]
-        except Exception:
-            pass
-        sizes = []
+    ent = types.SimpleNamespace(pw_name='probe', pw_uid=os.getuid(), pw_gid=os.getgid(), pw_dir=tmp,
+                                pw_passwd='x', pw_gecos='', pw_shell='/bin/sh')
 
-        def urandom(n):
-            sizes.append(n)
-            return old_urandom(n)
+    def getpwnam(name):
+        if name == 'probe':
+            return ent
+        raise KeyError(name)
+
+    def getpwuid(uid):
+        if uid == ent.pw_uid:
+            return ent
+        raise KeyError(uid)
+    old_pw = (pwd.getpwnam, pwd.getpwuid, sys.modules.get('pwd'))
+    fake = types.ModuleType('pwd')
+    fake.getpwnam, fake.getpwuid = getpwnam, getpwuid
+    sizes = []
+
+    def urandom(n):
+        sizes.append(n)
+        return old_urandom(n)
+    try:
+        pwd.getpwnam, pwd.getpwuid = getpwnam, getpwuid
+        sys.modules['pwd'] = fake
         os.urandom = urandom
-        try:
-            inst2 = C()
-            user = pwd.getpwuid(os.getuid()).pw_name
-            r = inst2._step_one(user, os.path.join(tmp, 'keyring'))
-            if r[0] == 'CONTINUE' and len(sizes) == 2:
-                res['cookieBytes'], res['challengeBytes'] = sizes
-        except Exception:
-            pass
+        # 1. a first challenge tells the name of the cookie file and the urandom sizes
+        r = C().step('probe')
+        kd = os.path.join(tmp, '.dbus-keyrings')
+        files = [f for f in os.listdir(kd) if not f.endswith('.lock')] if os.path.isdir(kd) else []
+        if r[0] == 'CONTINUE' and len(sizes) == 2 and len(files) == 1:
+            res['cookieBytes'], res['challengeBytes'] = sizes
+            # 2. entries of ages 0..199 s; after the next challenge the file holds the unexpired ones + the new one
+            path = os.path.join(kd, files[0])
+            for attempt in range(6):
+                base = int(time.time())
+                with open(path, 'wb') as f:
+                    for k in range(0, 200):
+                        f.write(b'%d %d %s\n' % (k + 1, base - k, b'00'))
+                r2 = C().step('probe')
+                if int(time.time()) != base:
+                    continue                      # the clock ticked during the probe: ages are off by one, again
+                if r2[0] == 'CONTINUE':
+                    with open(path, 'rb') as f:
+                        rows = [ln.split() for ln in f.read().split(b'\n') if ln.strip()]
+                    # the last row is the new session's cookie; the others are pre-written rows that survived,
+                    # recognised by cookie b'00'; their age is base - <time field>
+                    kept = {base - int(r_[1]) for r_ in rows if len(r_) == 3 and r_[2] == b'00'}
+                    drops = [k for k in range(0, 200) if k not in kept]
+                    if (drops and all(k in kept for k in range(0, drops[0]))
+                            and not any(k in kept for k in range(drops[0], 200))):
+                        res['expiry'] = drops[0]
+                break
+    except Exception:
+        pass
     finally:
         os.urandom = old_urandom
+        pwd.getpwnam, pwd.getpwuid = old_pw[0], old_pw[1]
+        if old_pw[2] is not None:
+            sys.modules['pwd'] = old_pw[2]
         shutil.rmtree(tmp, ignore_errors=True)
     return res
 
@@ -294,16 +332,27 @@ def _bytes_literals(fn):
 
 
 def _state_names(cls):
+    """String constants assigned to the state attribute of the class.  The attribute is `self.state` (named in
+    the property's anchors, not pinned by any test); when no such assignments exist it is the attribute of `self`
+    that is assigned the most distinct string constants (a renamed state variable), with an advisory."""
     src = textwrap.dedent(inspect.getsource(cls))
-    names = []
+    by_attr = {}
     for node in ast.walk(ast.parse(src)):
         if isinstance(node, ast.Assign) and len(node.targets) == 1:
             t = node.targets[0]
-            if (isinstance(t, ast.Attribute) and t.attr == 'state' and isinstance(node.value, ast.Constant)
-                    and isinstance(node.value.value, str)):
-                if node.value.value not in names:
-                    names.append(node.value.value)
-    return names
+            if (isinstance(t, ast.Attribute) and isinstance(t.value, ast.Name) and t.value.id == 'self'
+                    and isinstance(node.value, ast.Constant) and isinstance(node.value.value, str)):
+                by_attr.setdefault(t.attr, [])
+                if node.value.value not in by_attr[t.attr]:
+                    by_attr[t.attr].append(node.value.value)
+    if by_attr.get('state'):
+        return by_attr['state']
+    best = sorted(by_attr.items(), key=lambda kv: (-len(kv[1]), kv[0]))
+    if best and len(best[0][1]) >= 2:
+        ADVISORIES.append('BusAuthenticator no longer assigns string constants to `self.state`; the state names %r are '
+                          'those assigned to `self.%s`' % (sorted(best[0][1]), best[0][0]))
+        return best[0][1]
+    raise TranslatorError('no attribute of BusAuthenticator is assigned state names')
 
 
 def _cookie_constants_by_ast(C):
@@ -347,11 +396,7 @@ def tables():
     def nat(owner, attr):
         v = getattr(owner, attr, None)
         return v if (isinstance(v, int) and not isinstance(v, bool) and v >= 0) else None
-    old_linux = protocol._is_linux
-    try:
-        p_line, p_rest, p_rejects = _probe_limits(delim)
-    finally:
-        protocol._is_linux = old_linux
+    p_line, p_rest, p_rejects = _probe_limits(delim)
     t['MAX_AUTH_LENGTH'] = _both('MAX_AUTH_LENGTH', nat(P, 'MAX_AUTH_LENGTH'), p_line,
                                  'BasicDBusProtocol.MAX_AUTH_LENGTH is not a natural-number attribute any more')
     t['MAX_REJECTS_ALLOWED'] = _both('MAX_REJECTS_ALLOWED', nat(B, 'MAX_REJECTS_ALLOWED'), p_rejects,
@@ -394,10 +439,7 @@ def tables():
         lits = set(_bytes_literals(B))
     except (OSError, TypeError):
         lits = set()
-    try:
-        probed = _probe_words(B, [n for n, _ in mechs], delim)
-    finally:
-        protocol._is_linux = old_linux
+    probed = _probe_words(B, [n for n, _ in mechs], delim)
     for k in ('wRejected', 'wErrorSp', 'wError', 'wOk', 'wData', 'wUnknown'):
         v = probed.get(k)
         if v is None:
@@ -406,18 +448,14 @@ def tables():
             ADVISORIES.append('reply word %s = %r is not a bytes literal of class BusAuthenticator any more; it was '
                               'read off the reply of the real authenticator' % (k, v))
         t[k] = v
-    try:
-        by_probe = _probe_commands(B, delim, t['wErrorSp'] + t['wUnknown'])
-    finally:
-        protocol._is_linux = old_linux
+    by_probe = _probe_commands(B, delim, t['wErrorSp'] + t['wUnknown'])
     t['commands'] = _both('commands', by_dir or None, by_probe or None,
                           'BusAuthenticator has no `_auth_<NAME>` methods any more')
     t['states'] = sorted(_state_names(B))
     # reject_msg as actually computed by the constructor, and as actually sent
-    t['rejectMsg'] = B(b'').reject_msg
-    if probed.get('rejectReply') != t['rejectMsg']:
-        raise TranslatorError('reject_msg %r is not what the authenticator sends (%r)'
-                              % (t['rejectMsg'], probed.get('rejectReply')))
+    by_attr = getattr(B(b''), 'reject_msg', None)
+    t['rejectMsg'] = _both('rejectMsg', by_attr if isinstance(by_attr, bytes) else None, probed.get('rejectReply'),
+                           'BusAuthenticator instances have no bytes attribute `reject_msg` any more')
     return t
 
 
